@@ -70,26 +70,44 @@ func (e *Env) globalRegexp(rel, name string) (string, bool) {
 func c06KeyCoversLayout(e *Env) {
 	r := e.R
 	r.Rule("C06.key-covers-layout", "AGR", "sort key distinguishes instants the file-name layout distinguishes", 2)
-	newFile := e.Fn(jsondbRel, "(*JSONDB).newFile")
-	tsFn := e.Fn(jsondbRel, "timestamp")
-	if newFile == nil || tsFn == nil {
-		return
-	}
-	// layout: constant argument of time.Format in the file-name builder
-	layout := ""
-	for _, ci := range ir.CallsIn(newFile, func(c *ssa.CallCommon) bool { return ir.IsCallTo(c, "(time.Time).Format") }) {
-		if s, ok := ir.ConstString(ci.Common().Args[1]); ok {
-			layout = s
+	// by role: the file-name layout is the longest constant layout given to
+	// time.Format in the history store; the sort-key function is the one that
+	// applies a package-level regexp with FindString
+	sp := e.P.Pkg(jsondbRel)
+	var pkgFns []*ssa.Function
+	for _, f := range e.RepoFuncsSorted() {
+		if sp != nil && rootFn(f).Package() == sp {
+			pkgFns = append(pkgFns, f)
 		}
 	}
-	// key: the regexp global used by timestamp()
-	var pat string
-	for _, ci := range ir.CallsIn(tsFn, func(c *ssa.CallCommon) bool { return ir.IsCallTo(c, "(*regexp.Regexp).FindString") }) {
-		if u, ok := ci.Common().Args[0].(*ssa.UnOp); ok {
-			if g, ok := u.X.(*ssa.Global); ok {
-				pat, _ = e.globalRegexp(jsondbRel, g.Name())
+	layout := ""
+	var layouts []string
+	var newFile, tsFn *ssa.Function
+	for _, f := range pkgFns {
+		for _, ci := range ir.CallsIn(f, func(c *ssa.CallCommon) bool { return ir.IsCallTo(c, "(time.Time).Format") }) {
+			if s, ok := ir.ConstString(ci.Common().Args[1]); ok {
+				layouts = append(layouts, s)
+				if len(s) > len(layout) {
+					layout, newFile = s, f
+				}
 			}
 		}
+	}
+	var pat string
+	for _, f := range pkgFns {
+		for _, ci := range ir.CallsIn(f, func(c *ssa.CallCommon) bool { return ir.IsCallTo(c, "(*regexp.Regexp).FindString") }) {
+			if u, ok := ci.Common().Args[0].(*ssa.UnOp); ok {
+				if g, ok := u.X.(*ssa.Global); ok {
+					if p, okp := e.globalRegexp(jsondbRel, g.Name()); okp {
+						pat, tsFn = p, f
+					}
+				}
+			}
+		}
+	}
+	if newFile == nil || tsFn == nil {
+		r.Unknown("file-name layout and sort-key pattern", "-", sprintf("could not find the history store's time.Format layout (%q) and FindString sort key (%q)", layout, pat))
+		return
 	}
 	if layout == "" || pat == "" {
 		r.Unknown("file-name layout and sort-key pattern", e.Pos(newFile.Pos()), sprintf("could not extract constants: layout=%q pattern=%q", layout, pat))
@@ -119,17 +137,20 @@ func c06KeyCoversLayout(e *Env) {
 	r.Check(k1 != "" && k2 != "" && k1 < k2, "history file key: layout "+layout+" vs key pattern", e.Pos(tsFn.Pos()),
 		sprintf("two runs started %v apart get file names %q and %q but the same sort key %q: the latest-status and recent-history queries cannot tell which is newer", unit, n1, n2, k1),
 		"layout="+layout, "pattern="+pat)
-	// date-only layout of the "today" pattern is a prefix of the full layout
-	lt := e.Fn(jsondbRel, "(*JSONDB).latestToday")
-	if lt != nil {
-		okp := false
-		for _, ci := range ir.CallsIn(lt, func(c *ssa.CallCommon) bool { return ir.IsCallTo(c, "(time.Time).Format") }) {
-			if s, ok := ir.ConstString(ci.Common().Args[1]); ok && strings.HasPrefix(layout, s) && s != "" {
-				okp = true
-			}
+	// every other layout the store formats times with (the "today" pattern) is a prefix of the file-name layout
+	okp, other := true, 0
+	for _, l := range layouts {
+		if l == layout {
+			continue
 		}
-		r.Check(okp, "today pattern: date layout is a prefix of the file-name layout", e.Pos(lt.Pos()),
-			"the pattern selecting today's runs formats the day with a layout that is not a prefix of the layout file names are written with")
+		other++
+		if l == "" || !strings.HasPrefix(layout, l) {
+			okp = false
+		}
+	}
+	if other > 0 {
+		r.Check(okp, "today pattern: date layout is a prefix of the file-name layout", e.Pos(newFile.Pos()),
+			"the pattern selecting today's runs formats the day with a layout that is not a prefix of the layout file names are written with", "layouts: "+strings.Join(layouts, ", "))
 	}
 }
 
@@ -284,6 +305,14 @@ func c06Isolation(e *Env) {
 				return c.Call.Args
 			}
 			return nil
+		},
+		// a helper's parameter is followed to its call sites: the DAG argument is the
+		// string parameter of the store's exported operation the helper works for
+		Up: func(f *ssa.Function) []ssa.CallInstruction {
+			if f.Object() != nil && f.Object().Exported() {
+				return nil
+			}
+			return e.StaticCallSites(f)
 		}}
 	for _, f := range e.RepoFuncsSorted() {
 		if rootFn(f).Package() != sp {
@@ -292,12 +321,16 @@ func c06Isolation(e *Env) {
 		for _, ci := range ir.CallsIn(f, func(c *ssa.CallCommon) bool {
 			return ir.IsCallTo(c, "os.Remove", "os.RemoveAll", "os.Rename")
 		}) {
-			// string parameters of the enclosing method
-			var params []ssa.Value
-			for _, p := range rootFn(f).Params {
-				if p.Type().String() == "string" {
-					params = append(params, p)
+			// the DAG argument: a string parameter of an operation at the store's API
+			// boundary (an exported function or method of the package, or a function
+			// nobody in the repository calls statically)
+			isAPIParam := func(v ssa.Value) bool {
+				p, ok := v.(*ssa.Parameter)
+				if !ok || p.Type().String() != "string" {
+					return false
 				}
+				g := p.Parent()
+				return (g.Object() != nil && g.Object().Exported()) || len(e.StaticCallSites(g)) == 0
 			}
 			check := func(arg ssa.Value) (bool, []string) {
 				var srcs []string
@@ -307,10 +340,8 @@ func c06Isolation(e *Env) {
 					for _, l := range ls {
 						switch l.Kind {
 						case "param":
-							for _, p := range params {
-								if l.V == p {
-									fromParam = true
-								}
+							if isAPIParam(l.V) {
+								fromParam = true
 							}
 							srcs = append(srcs, "param "+l.Name)
 						case "call":
@@ -470,9 +501,36 @@ func c06ReqID(e *Env) {
 func c06NewestFirst(e *Env) {
 	r := e.R
 	r.Rule("C06.newest-first", "DCS/AGR", "latest-N: comparator key(i) > key(j); result files[:n] with n clamped", 2)
-	fn := e.Fn(jsondbRel, "filterLatest")
-	tsFn := e.FnQuiet(jsondbRel, "timestamp")
+	// by role: the function of the history store that sorts with a comparator calling the sort-key function
+	var tsFn *ssa.Function
+	sp := e.P.Pkg(jsondbRel)
+	for _, f := range e.RepoFuncsSorted() {
+		if sp == nil || rootFn(f).Package() != sp {
+			continue
+		}
+		for _, ci := range ir.CallsIn(f, func(c *ssa.CallCommon) bool { return ir.IsCallTo(c, "(*regexp.Regexp).FindString") }) {
+			if u, ok := ci.Common().Args[0].(*ssa.UnOp); ok {
+				if _, ok := u.X.(*ssa.Global); ok {
+					tsFn = f
+				}
+			}
+		}
+	}
+	var fn *ssa.Function
+	for _, f := range e.RepoFuncsSorted() {
+		if sp == nil || f.Package() != sp || f.Parent() != nil {
+			continue
+		}
+		for _, ci := range ir.CallsIn(f, func(c *ssa.CallCommon) bool { return ir.IsCallTo(c, "sort.Slice", "sort.SliceStable") }) {
+			if mc, ok := ci.Common().Args[1].(*ssa.MakeClosure); ok {
+				if len(ir.CallsIn(mc.Fn.(*ssa.Function), func(c *ssa.CallCommon) bool { return tsFn != nil && c.StaticCallee() == tsFn })) > 0 {
+					fn = f
+				}
+			}
+		}
+	}
 	if fn == nil {
+		r.Unknown("latest-N selection: the function sorting run files by their time key", "-", "no sort.Slice whose comparator calls the sort-key function")
 		return
 	}
 	// comparator closure passed to sort.Slice
@@ -503,32 +561,69 @@ func c06NewestFirst(e *Env) {
 		r.Check(okCmp, "filterLatest: less(i,j) = key(files[i]) > key(files[j])", e.InstrPos(ci),
 			"the recent-history selection does not sort newest first by the time key")
 	}
-	// return files[:n] with n <= len(files)
-	okSlice := false
+	// every non-nil return is the first min(n, len(files)) elements of the sorted slice:
+	// files[:n] under n <= len(files), files[:phi(n,len)] (clamped), or all of files
+	// under len(files) <= n
+	okSlice := true
+	nRet := 0
+	files, nParam := ssa.Value(fn.Params[0]), ssa.Value(fn.Params[1])
+	isFiles := func(v ssa.Value) bool { return ir.Resolve(v) == files }
+	lenOfFiles := func(v ssa.Value) bool {
+		x, ok := lenArg(v)
+		return ok && isFiles(x)
+	}
 	for _, b := range fn.Blocks {
 		for _, in := range b.Instrs {
 			rt, ok := in.(*ssa.Return)
-			if !ok || ir.IsNilConst(rt.Results[0]) {
+			if !ok || ir.IsNilConst(rt.Results[0]) || !e.Facts(fn).Reachable(b) {
 				continue
 			}
-			if sl, ok := ir.Resolve(rt.Results[0]).(*ssa.Slice); ok && sl.Low == nil && sl.High != nil && ir.Resolve(sl.X) == ssa.Value(fn.Params[0]) {
-				// High is phi(n, len(files)) with the len edge under n > len
-				if ph, ok := sl.High.(*ssa.Phi); ok {
-					hasN, hasLen := false, false
-					for _, ed := range ph.Edges {
-						if ir.Resolve(ed) == ssa.Value(fn.Params[1]) {
-							hasN = true
-						}
-						if c, ok := ed.(*ssa.Call); ok {
-							if bi, ok := c.Call.Value.(*ssa.Builtin); ok && bi.Name() == "len" {
-								hasLen = true
-							}
-						}
+			nRet++
+			lits := e.DCS(rt)
+			nLEQlen, lenLEQn := false, false
+			for _, l := range lits {
+				if l.Kind != "cmp" {
+					continue
+				}
+				if (l.Op == token.LEQ || l.Op == token.LSS) && ir.Resolve(l.X) == nParam && lenOfFiles(l.Y) {
+					nLEQlen = true
+				}
+				if (l.Op == token.LEQ || l.Op == token.LSS) && lenOfFiles(l.X) && ir.Resolve(l.Y) == nParam {
+					lenLEQn = true
+				}
+				if l.Op == token.EQL && lenOfFiles(l.X) {
+					if k, isK := ir.ConstInt(l.Y); isK && k == 0 {
+						lenLEQn = true
 					}
-					okSlice = hasN && hasLen
 				}
 			}
+			good := false
+			res := ir.Resolve(rt.Results[0])
+			if isFiles(res) {
+				good = lenLEQn
+			} else if sl, isS := res.(*ssa.Slice); isS && sl.Low == nil && sl.High != nil && isFiles(sl.X) {
+				if ir.Resolve(sl.High) == nParam {
+					good = nLEQlen
+				} else if ph, isP := sl.High.(*ssa.Phi); isP {
+					hasN, hasLen := false, false
+					for _, ed := range ph.Edges {
+						if ir.Resolve(ed) == nParam {
+							hasN = true
+						}
+						if lenOfFiles(ed) {
+							hasLen = true
+						}
+					}
+					good = hasN && hasLen
+				}
+			}
+			if !good {
+				okSlice = false
+			}
 		}
+	}
+	if nRet == 0 {
+		okSlice = false
 	}
 	r.Check(okSlice, "filterLatest: returns files[:min(n,len)]", e.Pos(fn.Pos()), "the recent-history selection does not return the first n (clamped) of the sorted files")
 }
